@@ -72,6 +72,9 @@ def build_roots():
             add('r_rect_set_' + t, 'pub fn r_rect_set_%s(a: %s, p: %s, e: %s<%s>) -> %s { let mut a = a; a.set_position(p); a.set_extent(e); a }' % (t, RT, VT, E, ty, RT), kind='rset', d=d, ty=ty, shape='rect')
             add('r_rect_new_' + t, 'pub fn r_rect_new_%s(%s) -> %s { %s::new(%s) }' % (t, ', '.join('%s: %s' % (n, ty) for n in AX[d] + EX[d]), RT, R, ', '.join(AX[d] + EX[d])), kind='rnew', d=d, ty=ty, shape='rect')
             add('r_rect_fromtup_' + t, 'pub fn r_rect_fromtup_%s(p: %s, e: %s<%s>) -> %s { %s::from((p, e)) }' % (t, VT, E, ty, RT, R), kind='rfromtup', d=d, ty=ty, shape='rect')
+            if ty == 'i32':
+                # integers: half of the size is one truncating division of max - min (not centre - min: the centre truncates towards zero)
+                add('r_box_half_size_' + t, 'pub fn r_box_half_size_%s(a: %s) -> %s<%s> { a.half_size() }' % (t, BT, E, ty), kind='half_size', d=d, ty=ty, shape='box')
             if ty == 'f32':
                 add('r_box_size_' + t, 'pub fn r_box_size_%s(a: %s) -> %s<%s> { a.size() }' % (t, BT, E, ty), kind='size', d=d, ty=ty, shape='box')
                 add('r_box_half_size_' + t, 'pub fn r_box_half_size_%s(a: %s) -> %s<%s> { a.half_size() }' % (t, BT, E, ty), kind='half_size', d=d, ty=ty, shape='box')
@@ -480,7 +483,8 @@ def run(ctx):
                 vec_eq(ctx, key, p1.ret, [h - l for l, h in zip(lo, hi)], 'alg=: size = max - min', w)
             elif k == 'half_size':
                 lo, hi = box_syms('a0', d)
-                vec_eq(ctx, key, p1.ret, [(h - l) / C(2) for l, h in zip(lo, hi)], 'alg=: half size = (max - min) / 2', w)
+                half = (lambda x: fn('idiv', x, C(2))) if m['ty'] == 'i32' else (lambda x: x / C(2))
+                vec_eq(ctx, key, p1.ret, [half(h - l) for l, h in zip(lo, hi)], 'alg=: half size = (max - min) / 2 (integers: one truncating division of max - min)', w)
             elif k == 'distance':
                 pass
             elif k == 'new_empty':
